@@ -417,7 +417,11 @@ class ClassObject(Object, Callable):
         attrs = self.__dict__['_attrs'] = {}
         try:
             for b in reversed(self.bases):
-                attrs.update(b._attrs)
+                # what a base merely inherits from object comes last in the
+                # method resolution order: it does not hide what a base
+                # further right defines - class K(Base, Mixin)
+                attrs.update((k, v) for k, v in iteritems(b._attrs)
+                             if k not in attrs or not is_from_object(v))
             attrs.update(self._cls_attrs)
         except BaseException:
             # an interrupted collection (RecursionError) must not stay cached
@@ -522,6 +526,14 @@ class InstanceValue(Object):
             del self.__dict__['_attrs']
             raise
         return attrs
+
+
+def is_from_object(name):
+    # type: (t.Any) -> bool
+    """The attribute every class gets from object itself"""
+    missing = []  # type: list[int]
+    return (isinstance(name, RuntimeName)
+            and getattr(object, name.name, missing) is name.value)
 
 
 def is_data_descriptor(name):
